@@ -317,41 +317,7 @@ func runC03(r *Report, tier string) {
 		}
 	}
 
-	// R03.2
-	eps := P.verifyEntryPoints()
-	r.floor("R03.2", len(eps), 7, "Verify entry points")
-	for _, fn := range eps {
-		fr := P.factsOf(fn)
-		// the verifier parameter
-		var vterm *Term
-		variadic := false
-		for i, p := range fn.Params {
-			t := p.Type()
-			if s, ok := t.(*types.Slice); ok && isNamed(s.Elem(), cosePath, "Verifier") {
-				vterm, variadic = T("param", fmt.Sprint(i)), true
-			} else if isNamed(t, cosePath, "Verifier") {
-				vterm = T("param", fmt.Sprint(i))
-			}
-		}
-		for _, x := range fr.exits {
-			r.paths++
-			if x.kind == exitFailure {
-				continue
-			}
-			o := r.ob("R03.2", fmt.Sprintf("%s:exit:%s", shortFn(fn), exitID(P, fn, x)), fn, x.ret, "non-failure exit carries ok(Verifier.Verify) on the caller's verifier")
-			if x.kind == exitMixed {
-				o.fail("exit may return nil without a decided verdict: " + x.errTerm.String())
-				continue
-			}
-			if variadic {
-				why := positionalLoopOK(P, fn, x, "invoke:Verifier.Verify")
-				o.check(why == "", "every element of the full-range loop passed ok(Verify) with the verifier at the same index", why)
-				continue
-			}
-			c := verifierOKIn(exitFacts(P, x), vterm)
-			o.check(c != nil, "ok("+fmt.Sprint(c)+")", "success is returned on a path without ok(verifier.Verify(...)) on parameter "+vterm.String())
-		}
-	}
+	checkVerifyEntryPoints(r, "R03.2")
 
 	// exact-width ECDSA decoding: a changed signature cannot decode to the same (r, s)
 	checkECDSAStrictDecode(r, "R16.3")
@@ -567,4 +533,46 @@ func mutC03() []mutant {
 		{Name: "SignMessage.Verify stops after the first valid signature", File: "sign.go", Rule: "R03.2",
 			Old: "\t\tif err := signature.Verify(verifiers[i], protected, m.Payload, external); err != nil {\n\t\t\treturn err\n\t\t}\n\t}\n\treturn nil", New: "\t\tif err := signature.Verify(verifiers[i], protected, m.Payload, external); err == nil {\n\t\t\treturn nil\n\t\t}\n\t}\n\treturn ErrVerification"},
 	}
+}
+
+// checkVerifyEntryPoints: R03.2 - every exported Verify entry point returns
+// nil only under ok(Verifier.Verify) on the caller's verifier (per element and
+// per index for COSE_Sign): a verifier's error is never turned into success.
+func checkVerifyEntryPoints(r *Report, rule string) {
+	P := r.P
+	eps := P.verifyEntryPoints()
+	r.floor(rule, len(eps), 7, "Verify entry points")
+	for _, fn := range eps {
+		fr := P.factsOf(fn)
+		// the verifier parameter
+		var vterm *Term
+		variadic := false
+		for i, p := range fn.Params {
+			t := p.Type()
+			if s, ok := t.(*types.Slice); ok && isNamed(s.Elem(), cosePath, "Verifier") {
+				vterm, variadic = T("param", fmt.Sprint(i)), true
+			} else if isNamed(t, cosePath, "Verifier") {
+				vterm = T("param", fmt.Sprint(i))
+			}
+		}
+		for _, x := range fr.exits {
+			r.paths++
+			if x.kind == exitFailure {
+				continue
+			}
+			o := r.ob(rule, fmt.Sprintf("%s:exit:%s", shortFn(fn), exitID(P, fn, x)), fn, x.ret, "non-failure exit carries ok(Verifier.Verify) on the caller's verifier")
+			if x.kind == exitMixed {
+				o.fail("exit may return nil without a decided verdict: " + x.errTerm.String())
+				continue
+			}
+			if variadic {
+				why := positionalLoopOK(P, fn, x, "invoke:Verifier.Verify")
+				o.check(why == "", "every element of the full-range loop passed ok(Verify) with the verifier at the same index", why)
+				continue
+			}
+			c := verifierOKIn(exitFacts(P, x), vterm)
+			o.check(c != nil, "ok("+fmt.Sprint(c)+")", "success is returned on a path without ok(verifier.Verify(...)) on parameter "+vterm.String())
+		}
+	}
+
 }
